@@ -24,8 +24,9 @@ META = {
                    "stress harness that drives all those methods concurrently with traffic under several cipher/FEC classes; a detector report is a "
                    "violation, and one on a pair the summary calls ordered marks the tie as broken."),
     "level_note": ("Partial: the proof is over the extracted summary, whose extraction (verif-extract-lockset) is trusted and cross-checked by the detector. "
-                   "Abstraction: locations are (type, field) and package variables, one abstract instance per type split into session-owned and shared; "
-                   "memory reached through local aliases (pool buffers, double-buffer swap) is not modelled. Happens-before = program order, publication "
+                   "Abstraction: locations are (type, field), package variables and a separate content location per slice/map field (followed through local "
+                   "aliases, parameters and returned slices; unfollowable alias shapes fail the translation); one abstract instance per type split into "
+                   "session-owned and shared; pool-buffer bytes handed through channels are not modelled. Happens-before = program order, publication "
                    "before goroutine start, mutex release->acquire (a subset of the Go memory model). Outside: third-party packages, the standard "
                    "library, user callbacks, the Go runtime, the detector's schedule coverage; production build (no tag debug)."),
 }
@@ -289,6 +290,11 @@ def run(ctx):
         if verdict != "summary-agrees-undisciplined":
             ctx.broke("access summary contradicted by the race detector (%s): the detector reports a race on a pair the "
                       "generated summary / the lockset model calls ordered or does not contain" % verdict, what + "\n" + rc_["text"][:3000])
+    if not races and os.path.exists(os.path.join(ctx.dir, "race-output-%s.txt" % ctx.tier)):
+        out_ = open(os.path.join(ctx.dir, "race-output-%s.txt" % ctx.tier)).read()
+        m_ = re.search(r"fatal error: concurrent map [a-z ]+", out_)
+        if m_:   # the runtime's own detection of unsynchronised map access aborted the run
+            ctx.violation("race:runtime-concurrent-map-access", m_.group(0), {"scenario": only or "all", "output": out_[out_.find(m_.group(0)):][:6000]})
     ctx.coverage["detector_reports"] = len(races)
     ctx.coverage["detector_confirmed_pairs"] = ["%s ~ %s on %s" % p for p in sorted(confirmed)]
     # a pair refuted by the model but silent under the detector is not a finding - and not a proof either
@@ -318,11 +324,14 @@ def run(ctx):
     ctx.assumptions += [
         "PARTIAL: the theorems are about the generated lock/access summary; its extraction from the Go source (verif-extract-lockset) is trusted, "
         "cross-checked every run by the Go race detector on the real code (a report on a pair the summary calls ordered fails the check)",
-        "abstraction of the summary: locations are struct fields and package variables (type name, field name); one abstract instance per type, "
-        "split into session-owned types (reachable from UDPSession by containment: a lock field of a session guards only that session's objects) and shared "
-        "types; memory reached through a local alias of a slice/map/pointer (pool buffers handed through channels, the double-buffer swap in "
-        "TimedSched.prepend, cipher scratch buffers passed as arguments) is not a location of the model - ownership transfer is C15's subject and is "
-        "watched by the detector",
+        "abstraction of the summary: locations are struct fields and package variables (type name, field name) plus, for every slice/map-typed field, "
+        "a CONTENT location (type, field[*]) distinct from the header; element reads/writes, range, delete, append, copy, len of a map, and callees "
+        "writing through a slice are content accesses with the locks held at that point, also when made through a local alias (x := r.f, x := r.f[a:b], "
+        "range values, parameters bound to a field, slices returned by a callee) - aliases are propagated flow-insensitively per function; a field "
+        "assigned from another field's slice merges the two content locations; an alias escaping into a composite literal or a channel makes the "
+        "translator fail; the parallel exchange  a, r.f = r.f, a[:0]  is treated as ownership transfer (the local takes the old content over); one "
+        "abstract instance per type, split into session-owned types (reachable from UDPSession by containment) and shared types; byte contents of pool "
+        "buffers handed through channels and struct elements reached through *T from iterators are not content locations (C15 / the detector)",
         "publication: everything a constructor (newUDPSession, serveConn, NewTimedSched, package initialisation) does before its first go statement "
         "happens-before every other thread's access to that object (object pointers reach other goroutines only through go statements, channel "
         "sends, lock-protected maps, or the caller's own synchronisation)",
